@@ -50,6 +50,7 @@ type runDesc struct {
 	Ops    int  `json:"ops"`
 	Mix    mixT `json:"mix"`
 	Shared int  `json:"shared"`
+	Closer bool `json:"closer"`
 }
 
 // names as in the specification
@@ -469,10 +470,10 @@ func oneRun(c *rp.Ctx, run int, raw json.RawMessage, rr *raceReader, dir string)
 	}
 	bad := func(format string, a ...interface{}) { badAs("", format, a...) }
 
-	// the writer of this run; every second run it is also an io.Closer
+	// the writer of this run; it may also be an io.Closer
 	var rec *recWriter
 	var recc *recWriteCloser
-	if run%2 == 1 {
+	if d.Closer {
 		recc = &recWriteCloser{}
 		rec = &recc.recWriter
 		logger.Switch(recc)
